@@ -369,3 +369,167 @@ Section RowsEq.
       rewrite N.eqb_refl, !rr_eqb. cbn [sense_eqb andb]. unfold nent in ENT. now rewrite ENT.
   Qed.
 End RowsEq.
+
+(* ---- the result of the conversion ----------------------------------------------------------------------------------------------- *)
+
+Section Result.
+  Variable M : Q.
+  Hypothesis HM : 0 < M.
+  Variable P : llp.
+
+  Definition cn : list name := map lc_name (l_cols P).
+  Definition written : list lrow := filter row_written (l_rows P).
+  Definition all_cstrs : list cstr := flat_map (cstrs_of_row M cn) written.
+  Definition int_names : list name := map lc_name (filter lc_int (l_cols P)).
+  Definition obj_raw : raw := add_terms (raw0 (l_probname P) (l_max P) (l_objname P)) (rd_terms (obj_terms (l_cols P))).
+  Definition rows_raw : raw := fold_left cstr_effect all_cstrs obj_raw.
+  Definition bnds_raw : raw := fold_left (bnd_effect M) (l_cols P) rows_raw.
+  Definition final_raw : raw := mark_all bnds_raw int_names.
+
+  Hypothesis ND : NoDup cn.
+  Hypothesis BO : forall c, In c (l_cols P) -> lc_lo c <= lc_up c.
+  Hypothesis EN : forall r e, In r (l_rows P) -> In e (lr_ent r) -> In (fst e) cn.
+  Hypothesis W1 : written <> [].
+  Hypothesis USE : forall c, In c (l_cols P) -> Qeq_bool (lc_obj c) 0 = false \/
+                     exists r, In r written /\ Qeq_bool (coefS (lr_ent r) (lc_name c)) 0 = false.
+
+  Definition objrow : rrow :=
+    {| rr_name := Some (l_objname P); rr_sense := None; rr_rhs := 0; rr_terms := rev (rd_terms (obj_terms (l_cols P))) ++ [] |}.
+  Definition AC : list name :=
+    addcols (addcols [] (map fst (rd_terms (obj_terms (l_cols P))))) (flat_map cstr_names all_cstrs).
+
+  Lemma final_fields :
+    r_name final_raw = l_probname P /\ r_max final_raw = l_max P /\ r_cols final_raw = AC /\
+    r_rows final_raw = rev (map cstr_row all_cstrs) ++ [objrow] /\ r_int final_raw = rev int_names ++ [] /\
+    (forall c, In c (l_cols P) -> lookup_bnd (r_bnd final_raw) (lc_name c) =
+        fold_left (apply_stmt M) (map (rd_stmt M) (encode_bounds M (lc_lo c) (lc_up c) (lc_int c))) bst0).
+  Proof.
+    unfold final_raw, bnds_raw, rows_raw, obj_raw.
+    destruct (add_terms_fields (rd_terms (obj_terms (l_cols P))) (raw0 (l_probname P) (l_max P) (l_objname P))) as (A1 & B1 & C1 & D1 & E1 & F1).
+    specialize (F1 _ _ eq_refl).
+    set (rw1 := add_terms _ _) in *.
+    destruct (cstrs_effect_fields all_cstrs rw1) as (A2 & B2 & C2 & D2 & E2 & F2).
+    set (rw2 := fold_left cstr_effect all_cstrs rw1) in *.
+    destruct (bnds_effect_fields M (l_cols P) rw2 ND) as (A3 & B3 & C3 & D3 & E3 & F3 & _).
+    set (rw3 := fold_left (bnd_effect M) (l_cols P) rw2) in *.
+    destruct (mark_all_fields int_names rw3) as (A4 & B4 & C4 & D4 & E4 & F4).
+    rewrite A4, B4, C4, D4, F4, A3, B3, C3, D3, E3, A2, B2, E2, F2, D2, A1, B1, E1, F1, D1. cbn [raw0 r_name r_max r_cols r_int].
+    repeat split; try reflexivity.
+    intros c IN. rewrite E4, (F3 c IN), C2, C1. reflexivity.
+  Qed.
+
+  (* every name that occurs in a term is a column, and every column occurs in a term *)
+  Lemma cstr_of_written r : In r written -> exists c, In c all_cstrs /\ c_terms c = row_terms cn r.
+  Proof.
+    intros IN. unfold all_cstrs. unfold cstrs_of_row. 
+    destruct (lr_sense r) eqn:ES; eexists; (split; [apply in_flat_map; exists r; split; [exact IN|]; unfold cstrs_of_row; rewrite ES; left; reflexivity|reflexivity]).
+  Qed.
+  Lemma cstr_terms_row c : In c all_cstrs -> exists r, In r written /\ c_terms c = row_terms cn r.
+  Proof.
+    unfold all_cstrs. intros IN. apply in_flat_map in IN. destruct IN as (r & INr & IN). exists r. split; [exact INr|].
+    unfold cstrs_of_row in IN. destruct (lr_sense r); cbn [In] in IN; repeat (destruct IN as [<-|IN]; [reflexivity|]); destruct IN.
+  Qed.
+
+  Lemma AC_In n : In n AC <-> In n cn.
+  Proof.
+    unfold AC. rewrite !addcols_In. cbn [In]. split.
+    - intros [[[]|H]|H].
+      + apply (item_terms_names lc_name lc_obj (l_cols P) n) in H. destruct H as (c & IN & <- & _). now apply in_map.
+      + apply in_flat_map in H. destruct H as (c & INc & H). destruct (cstr_terms_row c INc) as (r & _ & ET).
+        unfold cstr_names in H. rewrite ET in H. apply (rd_terms_names cn _ n H).
+    - intros IN. unfold cn in IN. apply in_map_iff in IN. destruct IN as (c & <- & IN).
+      destruct (USE c IN) as [Z|(r & INr & Z)].
+      + left. right. apply (item_terms_names lc_name lc_obj (l_cols P)). eauto.
+      + right. destruct (cstr_of_written r INr) as (c0 & IN0 & ET). apply in_flat_map. exists c0. split; [exact IN0|].
+        unfold cstr_names. rewrite ET. apply (item_terms_names (fun m : name => m) (coefS (lr_ent r)) cn). exists (lc_name c).
+        split; [now apply in_map|]. split; [reflexivity|exact Z].
+  Qed.
+  Lemma AC_NoDup : NoDup AC.
+  Proof. unfold AC. apply addcols_NoDup, addcols_NoDup. constructor. Qed.
+
+  (* the columns of the result *)
+  Definition isint (nm : name) : bool := mem nm (r_int final_raw).
+  Definition mkcol (nm : name) : lcol :=
+    let b := fill_in M (lookup_bnd (r_bnd final_raw) nm) (isint nm) in
+    {| lc_name := nm; lc_obj := coefS (rev (rr_terms objrow)) nm; lc_lo := fst b; lc_up := snd b; lc_int := isint nm |}.
+
+  Lemma isint_col c : In c (l_cols P) -> isint (lc_name c) = lc_int c.
+  Proof.
+    intros IN. unfold isint. destruct final_fields as (_ & _ & _ & _ & RI & _). rewrite RI, app_nil_r.
+    apply Bool.eq_iff_eq_true. rewrite mem_In, <- in_rev. unfold int_names. rewrite in_map_iff. split.
+    - intros (c' & E & IN'). apply filter_In in IN'. destruct IN' as [IN' I'].
+      assert (c' = c); [|now subst].
+      clear - ND IN IN' E. unfold cn in ND. induction (l_cols P) as [|a l IH]; [destruct IN|]. cbn [map] in ND. inversion ND as [|? ? NI ND']; subst.
+      destruct IN as [<-|IN], IN' as [<-|IN']; auto.
+      + exfalso. apply NI. rewrite <- E. now apply in_map.
+      + exfalso. apply NI. rewrite E. now apply in_map.
+    - intros I. exists c. split; [reflexivity|]. apply filter_In. auto.
+  Qed.
+
+  Lemma mkcol_same c : In c (l_cols P) -> col_same (to_ncol c) (to_ncol (mkcol (lc_name c))) = true /\
+    lc_lo (mkcol (lc_name c)) <= lc_up (mkcol (lc_name c)).
+  Proof.
+    intros IN. destruct final_fields as (_ & _ & _ & _ & _ & LB).
+    pose proof (decode_rd M (lc_lo c) (lc_up c) (lc_int c) HM (BO c IN)) as DR. cbv zeta in DR.
+    unfold decode_bounds in DR. rewrite <- (LB c IN), <- (isint_col c IN) in DR. destruct DR as [DL DU].
+    assert (OBJ : coefS (rev (rr_terms objrow)) (lc_name c) == lc_obj c).
+    { unfold objrow. cbn [rr_terms]. rewrite app_nil_r, rev_involutive.
+      apply (coefS_rd_items lc_name lc_obj (l_cols P) c ND IN). }
+    split.
+    - unfold col_same, to_ncol, mkcol. cbn [nc_name nc_obj nc_lo nc_up nc_int lc_name lc_obj lc_lo lc_up lc_int].
+      rewrite N.eqb_refl, (isint_col c IN), Bool.eqb_reflx.
+      rewrite (proj2 (Qeq_bool_iff _ _)) by (symmetry; exact OBJ).
+      rewrite (proj2 (Qeq_bool_iff _ _)) by (symmetry; rewrite <- (isint_col c IN); exact DL).
+      rewrite (proj2 (Qeq_bool_iff _ _)) by (symmetry; rewrite <- (isint_col c IN); exact DU). reflexivity.
+    - unfold mkcol. cbn [lc_lo lc_up]. rewrite DL, DU. apply BO, IN.
+  Qed.
+
+  Lemma cn_In n : In n cn -> exists c, In c (l_cols P) /\ lc_name c = n.
+  Proof. unfold cn. intros H. apply in_map_iff in H. destruct H as (c & E & IN). eauto. Qed.
+
+  Lemma cols_match_result : cols_match (map to_ncol (l_cols P)) (map to_ncol (map mkcol (rev AC))) = true.
+  Proof.
+    unfold cols_match. rewrite !andb_true_iff. repeat split.
+    - rewrite map_map. cbn [to_ncol nc_name]. rewrite <- (map_map lc_name N_of_name). apply nodupb_names, ND.
+    - rewrite !map_map. cbn [to_ncol mkcol nc_name lc_name]. apply nodupb_names, NoDup_rev, AC_NoDup.
+    - apply forallb_forall. intros c IN. apply in_map_iff in IN. destruct IN as (c0 & <- & IN0).
+      apply existsb_exists. exists (to_ncol (mkcol (lc_name c0))). split; [|apply (mkcol_same c0 IN0)].
+      apply in_map, in_map. rewrite <- in_rev. apply AC_In. unfold cn. now apply in_map.
+    - apply forallb_forall. intros c' IN. apply in_map_iff in IN. destruct IN as (c1 & <- & IN1).
+      apply in_map_iff in IN1. destruct IN1 as (n & <- & INn). rewrite <- in_rev in INn. apply AC_In in INn.
+      destruct (cn_In n INn) as (c0 & IN0 & <-).
+      apply existsb_exists. exists (to_ncol c0). split; [now apply in_map|apply (mkcol_same c0 IN0)].
+  Qed.
+
+  Theorem finish_equiv : exists P', finish M final_raw = Some P' /\ equiv_by_name (to_nlp P) (to_nlp P') = true.
+  Proof.
+    destruct final_fields as (RN & RM & RC & RR & RI & LB).
+    assert (CN : exists n, In n cn).
+    { destruct written as [|r w] eqn:EW; [congruence|]. assert (INr : In r written) by (rewrite EW; now left).
+      unfold written in INr. apply filter_In in INr. destruct INr as [INr RW]. unfold row_written in RW.
+      destruct (lr_ent r) as [|e el] eqn:EE; [discriminate|]. exists (fst e). apply (EN r e INr). rewrite EE. now left. }
+    assert (CS : exists c0 cs', all_cstrs = c0 :: cs').
+    { destruct written as [|r w] eqn:EW; [congruence|]. unfold all_cstrs. rewrite EW. cbn [flat_map]. unfold cstrs_of_row at 1.
+      destruct (lr_sense r); eexists _, _; reflexivity. }
+    unfold finish. rewrite RR, rev_app_distr, rev_involutive. cbn [rev app]. rewrite RC.
+    change (map (fun nm : name => _) (rev AC)) with (map mkcol (rev AC)).
+    cbn [fill_names rr_name objrow].
+    change (flat_map _ ((l_objname P, objrow) :: fill_names (map cstr_row all_cstrs) 1 (row_names final_raw)))
+      with (srows_of ((l_objname P, objrow) :: fill_names (map cstr_row all_cstrs) 1 (row_names final_raw))).
+    cbn [srows_of flat_map snd rr_sense objrow app].
+    fold (srows_of (fill_names (map cstr_row all_cstrs) 1 (row_names final_raw))).
+    set (srows := srows_of (fill_names (map cstr_row all_cstrs) 1 (row_names final_raw))).
+    assert (N1 : is_nil (map mkcol (rev AC)) = false).
+    { destruct CN as (n & INn). apply AC_In in INn. rewrite in_rev in INn. destruct (rev AC); [destruct INn|reflexivity]. }
+    assert (N2 : is_nil srows = false).
+    { destruct CS as (c0 & cs' & ECS). unfold srows. rewrite ECS. cbn [map fill_names]. destruct (rr_name (cstr_row c0)); reflexivity. }
+    rewrite N1, N2. cbn [orb].
+    assert (N3 : existsb (fun c => Qltb (lc_up c) (lc_lo c)) (map mkcol (rev AC)) = false).
+    { apply not_true_is_false. intros H. apply existsb_exists in H. destruct H as (c' & IN & H).
+      apply in_map_iff in IN. destruct IN as (n & <- & INn). rewrite <- in_rev in INn. apply AC_In in INn.
+      destruct (cn_In n INn) as (c0 & IN0 & <-). apply Qltb_lt in H. pose proof (proj2 (mkcol_same c0 IN0)). lra. }
+    rewrite N3. eexists. split; [reflexivity|].
+    unfold equiv_by_name, to_nlp. cbn [n_max n_cols n_rows l_max l_cols l_rows]. rewrite RM, Bool.eqb_reflx, cols_match_result. cbn [andb].
+    unfold srows. apply (rows_match_gen M cn ND (l_rows P) 1 (row_names final_raw) EN).
+  Qed.
+End Result.
